@@ -241,6 +241,11 @@ func writeCompoundOpInfix(w io.Writer, c Compound, opts *WriteOptions, env *Env,
 func writeCompoundFunctionalNotation(w io.Writer, c Compound, opts *WriteOptions, env *Env) error {
 	ew := errWriter{w: w}
 	opts = opts.withRight(operator{})
+	if opts.left != (operator{}) && opts.ops.defined(c.Functor()) {
+		// An operator as a functor is not an operand. It must not be bracketed, just kept apart from the operator on its left.
+		_, _ = fmt.Fprint(&ew, " ")
+		opts = opts.withLeft(operator{})
+	}
 	_ = c.Functor().WriteTerm(&ew, opts, env)
 	_, _ = fmt.Fprint(&ew, "(")
 	opts = opts.withLeft(operator{}).withPriority(999)
